@@ -447,4 +447,168 @@ example : 0 < expDiff (freq (1/10) (2/10) (3/10) (4/10)) (NormedSpace.exp ((1 : 
     rw [Real.exp_lt_one_iff]; have := one_div_pos.mpr hb; linarith
   exact mul_pos hb (by linarith)
 
+/-! ## TN93: a symbolic eigen-system for the regenerated rate matrix
+
+`models/dna/tn93.go` has no closed form: it builds the rate matrix and lets gonum decompose it.  The
+eigenvectors of the family with the three eigenvalues below diagonalise the matrix **regenerated from
+`TN93Model.InitModel`**, so `exp(x·Q)` is available in closed form. -/
+
+noncomputable def tn93Norm (κ1 κ2 a c g t : ℝ) : ℝ :=
+  a * (c + κ1 * g + t) + c * (a + g + κ2 * t) + g * (κ1 * a + c + t) + t * (a + κ2 * c + g)
+noncomputable def tn93D1 (κ1 κ2 a c g t : ℝ) : ℝ := -((c + t) * κ2 + (a + g)) / tn93Norm κ1 κ2 a c g t
+noncomputable def tn93D2 (κ1 κ2 a c g t : ℝ) : ℝ := -((a + g) * κ1 + (c + t)) / tn93Norm κ1 κ2 a c g t
+noncomputable def tn93D3 (κ1 κ2 a c g t : ℝ) : ℝ := -1 / tn93Norm κ1 κ2 a c g t
+theorem tn93Norm_pos (κ1 κ2 a c g t : ℝ) (h1 : 0 < κ1) (h2 : 0 < κ2) (ha : 0 < a) (hc : 0 < c) (hg : 0 < g)
+    (ht : 0 < t) : 0 < tn93Norm κ1 κ2 a c g t := by unfold tn93Norm; positivity
+
+
+theorem tn_eigen_LR (a c g t : ℝ) (ha : 0 < a) (hc : 0 < c) (hg : 0 < g) (ht : 0 < t)
+    (hsum : a + c + g + t = 1) : tnL a c g t * tnR a c g t = 1 := f84_eigen_LR 0 a c g t ha hc hg ht hsum
+
+/-- the unscaled TN93 rate matrix -/
+noncomputable def tn93U (κ1 κ2 a c g t : ℝ) : Matrix (Fin 4) (Fin 4) ℝ :=
+  !![-(c + κ1 * g + t), c, κ1 * g, t;
+     a, -(a + g + κ2 * t), g, κ2 * t;
+     κ1 * a, c, -(κ1 * a + c + t), t;
+     a, κ2 * c, g, -(a + κ2 * c + g)]
+
+theorem tn93Q_apply (κ1 κ2 a c g t : ℝ) (h1 : 0 < κ1) (h2 : 0 < κ2) (ha : 0 < a) (hc : 0 < c) (hg : 0 < g)
+    (ht : 0 < t) (i j : Fin 4) :
+    tn93Q κ1 κ2 a c g t i j = tn93U κ1 κ2 a c g t i j / tn93Norm κ1 κ2 a c g t := by
+  have hM := (tn93Norm_pos κ1 κ2 a c g t h1 h2 ha hc hg ht).ne'
+  unfold tn93Norm at hM ⊢
+  fin_cases i <;> fin_cases j <;>
+    simp [tn93Q, TN93Model_InitModel, tn93U] <;>
+    (rw [div_eq_div_iff] <;> first | ring1 | exact hM | (intro h; exact hM (by linear_combination h)))
+
+theorem tn93_eigen_RDL (κ1 κ2 a c g t : ℝ) (h1 : 0 < κ1) (h2 : 0 < κ2) (ha : 0 < a) (hc : 0 < c) (hg : 0 < g)
+    (ht : 0 < t) (hsum : a + c + g + t = 1) :
+    tnR a c g t * diagonal (tnD (tn93D1 κ1 κ2 a c g t) (tn93D2 κ1 κ2 a c g t) (tn93D3 κ1 κ2 a c g t)) * tnL a c g t
+      = tn93Q κ1 κ2 a c g t := by
+  have hM := (tn93Norm_pos κ1 κ2 a c g t h1 h2 ha hc hg ht).ne'
+  have hY : t + c ≠ 0 := by positivity
+  have hR : a + g ≠ 0 := by positivity
+  have hg' := hg.ne'
+  have ht' := ht.ne'
+  have ht'' : t = 1 - a - c - g := by linarith
+  ext i j
+  rw [Matrix.mul_apply, Fin.sum_univ_four, tn93Q_apply κ1 κ2 a c g t h1 h2 ha hc hg ht]
+  simp only [Matrix.mul_diagonal, tn93D1, tn93D2, tn93D3]
+  generalize tn93Norm κ1 κ2 a c g t = M at *
+  fin_cases i <;> fin_cases j <;>
+    simp [tnR, tnL, tnD, tn93U, f84L, f84R, f84Eig, F84Model_Eigens, F84Model_InitModel] <;>
+    field_simp <;> (subst ht''; ring)
+
+/-- the closed-form TN93 transition matrix -/
+noncomputable def tn93P (κ1 κ2 a c g t x : ℝ) : Matrix (Fin 4) (Fin 4) ℝ :=
+  tnP (tn93D1 κ1 κ2 a c g t) (tn93D2 κ1 κ2 a c g t) (tn93D3 κ1 κ2 a c g t) a c g t x
+
+/-- `tn93P` is the matrix exponential of the regenerated rate matrix, which is the textbook TN93 matrix -/
+theorem tn93P_eq_exp (κ1 κ2 a c g t x : ℝ) (h1 : 0 < κ1) (h2 : 0 < κ2) (ha : 0 < a) (hc : 0 < c) (hg : 0 < g)
+    (ht : 0 < t) (hsum : a + c + g + t = 1) :
+    tn93P κ1 κ2 a c g t x = NormedSpace.exp (x • tn93Q κ1 κ2 a c g t) ∧
+    tn93P κ1 κ2 a c g t x = NormedSpace.exp (x • specQ 4 (exTN93 κ1 κ2) (pi4 a c g t)) := by
+  have h := MatrixExp.eigen_assembly_eq_exp (tn_eigen_LR a c g t ha hc hg ht hsum)
+    (tn93_eigen_RDL κ1 κ2 a c g t h1 h2 ha hc hg ht hsum) x
+  refine ⟨h, ?_⟩
+  rw [← tn93_Q_eq_textbook κ1 κ2 a c g t h1 h2 ha hc hg ht hsum]; exact h
+
+/-- with this eigen-system the conditional C18 theorem `tn93_laws_of_eigen_system` applies: every law of
+`P(x)` holds for the closed form -/
+theorem tn93_closed_form_laws (κ1 κ2 a c g t : ℝ) (h1 : 0 < κ1) (h2 : 0 < κ2) (ha : 0 < a) (hc : 0 < c)
+    (hg : 0 < g) (ht : 0 < t) (hsum : a + c + g + t = 1) :
+    tn93P κ1 κ2 a c g t 0 = 1 ∧
+    (∀ x y, tn93P κ1 κ2 a c g t (x + y) = tn93P κ1 κ2 a c g t x * tn93P κ1 κ2 a c g t y) ∧
+    (∀ x i, ∑ j, tn93P κ1 κ2 a c g t x i j = 1) ∧
+    (∀ x, 0 ≤ x → ∀ i j, 0 ≤ tn93P κ1 κ2 a c g t x i j ∧ tn93P κ1 κ2 a c g t x i j ≤ 1) ∧
+    (∀ x (i j : Fin 4), freq a c g t i * tn93P κ1 κ2 a c g t x i j = freq a c g t j * tn93P κ1 κ2 a c g t x j i) :=
+  (tn93_laws_of_eigen_system κ1 κ2 a c g t h1 h2 ha hc hg ht hsum _ _ _ (tn_eigen_LR a c g t ha hc hg ht hsum)
+    (tn93_eigen_RDL κ1 κ2 a c g t h1 h2 ha hc hg ht hsum)).2
+
+/-- the three logarithm arguments of the published TN93 formula, evaluated at the expected observables, are
+the three exponentials of the model -/
+theorem tn93_log_args (κ1 κ2 a c g t x : ℝ) (ha : 0 < a) (hc : 0 < c) (hg : 0 < g) (ht : 0 < t)
+    (hsum : a + c + g + t = 1) :
+    tn93E1 a c g t (expTv (freq a c g t) (tn93P κ1 κ2 a c g t x)) = Real.exp (tn93D3 κ1 κ2 a c g t * x) ∧
+    tn93E2 a c g t (expAG (freq a c g t) (tn93P κ1 κ2 a c g t x)) (expTv (freq a c g t) (tn93P κ1 κ2 a c g t x))
+      = Real.exp (tn93D2 κ1 κ2 a c g t * x) ∧
+    tn93E3 a c g t (expCT (freq a c g t) (tn93P κ1 κ2 a c g t x)) (expTv (freq a c g t) (tn93P κ1 κ2 a c g t x))
+      = Real.exp (tn93D1 κ1 κ2 a c g t * x) := by
+  obtain ⟨hv, hag, hct⟩ := tnP_expected (tn93D1 κ1 κ2 a c g t) (tn93D2 κ1 κ2 a c g t) (tn93D3 κ1 κ2 a c g t)
+    a c g t x ha hc hg ht
+  unfold tn93P
+  rw [hv, hag, hct]
+  generalize Real.exp (tn93D1 κ1 κ2 a c g t * x) = e1
+  generalize Real.exp (tn93D2 κ1 κ2 a c g t * x) = e2
+  generalize Real.exp (tn93D3 κ1 κ2 a c g t * x) = e3
+  have hR : a + g ≠ 0 := by positivity
+  have hY : c + t ≠ 0 := by positivity
+  have ha' := ha.ne'
+  have hc' := hc.ne'
+  have hg' := hg.ne'
+  have ht' := ht.ne'
+  unfold tn93E1 tn93E2 tn93E3
+  real_like
+  obtain rfl : t = 1 - a - c - g := by linarith
+  refine ⟨?_, ?_, ?_⟩ <;> field_simp <;> ring
+
+/-- **TN93 inverts its model**: the published estimator applied to the expected A↔G, C↔T and transversional
+proportions after time `x` returns `x` -/
+theorem tn93_inverts_expected (κ1 κ2 a c g t x : ℝ) (h1 : 0 < κ1) (h2 : 0 < κ2) (ha : 0 < a) (hc : 0 < c)
+    (hg : 0 < g) (ht : 0 < t) (hsum : a + c + g + t = 1) :
+    tn93 a c g t (expAG (freq a c g t) (tn93P κ1 κ2 a c g t x)) (expCT (freq a c g t) (tn93P κ1 κ2 a c g t x))
+      (expTv (freq a c g t) (tn93P κ1 κ2 a c g t x)) = x := by
+  obtain ⟨e1, e2, e3⟩ := tn93_log_args κ1 κ2 a c g t x ha hc hg ht hsum
+  unfold tn93
+  real_like
+  rw [e1, e2, e3, Real.log_exp, Real.log_exp, Real.log_exp]
+  have hM := (tn93Norm_pos κ1 κ2 a c g t h1 h2 ha hc hg ht).ne'
+  unfold tn93D1 tn93D2 tn93D3
+  have hR : a + g ≠ 0 := by positivity
+  have hY : c + t ≠ 0 := by positivity
+  field_simp
+  unfold tn93Norm
+  ring
+
+/-- against the textbook TN93 rate matrix of `Spec/SubstModels.lean` -/
+theorem tn93_inverts_textbook_model (κ1 κ2 a c g t x : ℝ) (h1 : 0 < κ1) (h2 : 0 < κ2) (ha : 0 < a) (hc : 0 < c)
+    (hg : 0 < g) (ht : 0 < t) (hsum : a + c + g + t = 1) :
+    tn93 a c g t (expAG (freq a c g t) (NormedSpace.exp (x • specQ 4 (exTN93 κ1 κ2) (pi4 a c g t))))
+      (expCT (freq a c g t) (NormedSpace.exp (x • specQ 4 (exTN93 κ1 κ2) (pi4 a c g t))))
+      (expTv (freq a c g t) (NormedSpace.exp (x • specQ 4 (exTN93 κ1 κ2) (pi4 a c g t)))) = x := by
+  rw [← (tn93P_eq_exp κ1 κ2 a c g t x h1 h2 ha hc hg ht hsum).2]
+  exact tn93_inverts_expected κ1 κ2 a c g t x h1 h2 ha hc hg ht hsum
+
+/-- for the estimator code regenerated from `distance/dna/tn93.go`, `x ≥ 0` (`trS`, the total number of
+transitions, is not used by the formula) -/
+theorem tn93_code_inverts_expected (al n trS κ1 κ2 a c g t x : ℝ) (hn : 0 < n) (h1 : 0 < κ1) (h2 : 0 < κ2)
+    (ha : 0 < a) (hc : 0 < c) (hg : 0 < g) (ht : 0 < t) (hsum : a + c + g + t = 1) (hx : 0 ≤ x) :
+    Gen.tn93Distance false al a c g t trS (n * expTv (freq a c g t) (tn93P κ1 κ2 a c g t x))
+      (n * expAG (freq a c g t) (tn93P κ1 κ2 a c g t x)) (n * expCT (freq a c g t) (tn93P κ1 κ2 a c g t x)) n = x := by
+  have hp : ∀ y : ℝ, n * y / n = y := fun y => by field_simp
+  obtain ⟨_, _, _, hunit, _⟩ := tn93_closed_form_laws κ1 κ2 a c g t h1 h2 ha hc hg ht hsum
+  have hnn : ∀ i j, 0 ≤ freq a c g t i * tn93P κ1 κ2 a c g t x i j := fun i j =>
+    mul_nonneg (by fin_cases i <;> simp [freq, pi4] <;> linarith) (hunit x hx i j).1
+  have hAG : 0 ≤ expAG (freq a c g t) (tn93P κ1 κ2 a c g t x) := by rw [expAG]; linarith [hnn 0 2, hnn 2 0]
+  have hCT : 0 ≤ expCT (freq a c g t) (tn93P κ1 κ2 a c g t x) := by rw [expCT]; linarith [hnn 1 3, hnn 3 1]
+  have hTv : 0 ≤ expTv (freq a c g t) (tn93P κ1 κ2 a c g t x) := by
+    rw [expTv_eq]; simp only [mul_add]
+    linarith [hnn 0 1, hnn 0 3, hnn 1 0, hnn 1 2, hnn 2 1, hnn 2 3, hnn 3 0, hnn 3 2]
+  obtain ⟨e1, e2, e3⟩ := tn93_log_args κ1 κ2 a c g t x ha hc hg ht hsum
+  rw [C07.tn93_eq_published al a c g t trS _ _ _ n ha hc hg ht hn (mul_nonneg hn.le hAG) (mul_nonneg hn.le hCT)
+    (mul_nonneg hn.le hTv) (by rw [hp, e1]; exact Real.exp_pos _) (by rw [hp, hp, e2]; exact Real.exp_pos _)
+    (by rw [hp, hp, e3]; exact Real.exp_pos _), hp, hp, hp]
+  exact tn93_inverts_expected κ1 κ2 a c g t x h1 h2 ha hc hg ht hsum
+
+example : 0 < expTv (freq (1/10) (2/10) (3/10) (4/10)) (tn93P 2 3 (1/10) (2/10) (3/10) (4/10) 1) := by
+  unfold tn93P
+  rw [(tnP_expected _ _ _ (1/10) (2/10) (3/10) (4/10) 1 (by norm_num) (by norm_num) (by norm_num) (by norm_num)).1]
+  have hM := tn93Norm_pos 2 3 (1/10) (2/10) (3/10) (4/10) (by norm_num) (by norm_num) (by norm_num) (by norm_num)
+    (by norm_num) (by norm_num)
+  have : Real.exp (tn93D3 2 3 (1/10) (2/10) (3/10) (4/10) * 1) < 1 := by
+    rw [Real.exp_lt_one_iff, tn93D3]
+    have := div_pos one_pos hM
+    rw [mul_one, neg_div]; linarith
+  nlinarith
+
 end Gv.Props.C07Inv
